@@ -5,17 +5,17 @@
 (* (geoh5py/ui_json/templates.py on top of constants.default_ui_json) and one `validate` flag,  *)
 (* then the life of an InputFile object:                                                        *)
 (*   Load      InputFile(ui_json=raw, validate=..) + first access of .data                      *)
-(*             (input_file.py:94-148 ctor/data, 214-236 ui_json setter, 468-496 numify)         *)
+(*             (input_file.py:91-150 ctor/data, 221-243 ui_json setter, 468-498 numify)         *)
 (*   SetValue  InputFile.set_data_value(name, value)            (input_file.py:426-452)         *)
 (*   Write     InputFile.write_ui_json(name, path)              (input_file.py:390-424)         *)
 (*   Read      InputFile.read_ui_json(path) + .data, the new object replaces the old one        *)
 (*             (input_file.py:192-212)                                                          *)
-(*   Demote    InputFile.demote(data)      (observation)        (input_file.py:498-517)         *)
-(*   Promote   InputFile.promote(identifiers of data) (observation) (input_file.py:519-545)     *)
+(*   Demote    InputFile.demote(data)      (observation)        (input_file.py:500-518)         *)
+(*   Promote   InputFile.promote(identifiers of data) (observation) (input_file.py:520-545)     *)
 (*                                                                                              *)
 (* Values are sequences of *tokens* (a scalar is a one-element sequence with l = FALSE): the    *)
 (* harness maps every token to concrete Python values, the mappers of geoh5py act element-wise  *)
-(* (shared/utils.py:467-490 dict_mapper).  A token is a record [c |-> class, x |-> entity].     *)
+(* (shared/utils.py:459-490 dict_mapper).  A token is a record [c |-> class, x |-> entity].     *)
 (*   in memory : None True False Int Int2 Float Float2 PInf NInf Str Str2 EmptyStr StrInf       *)
 (*               StrNInf StrUuid StrG5 Id:x (uuid.UUID) Ent:x (entity) Ws WsNew (Workspace)      *)
 (*               IdText:x ("{uuid}" text) WsPath (path text of the fixture workspace)            *)
@@ -30,17 +30,17 @@
 (* mirrors the code step by step, every state carries Viol = the invariants it breaks with the  *)
 (* mechanism that explains it, and Explained says that nothing else breaks.                     *)
 (*   EmptyStrAsNone     str2none turns a parameter's own "" into None     (shared/utils.py:725) *)
-(*   InfTextAsFloat     str2inf turns a parameter's own "inf" into float  (ui_json/utils.py:262)*)
+(*   InfTextAsFloat     str2inf turns a parameter's own "inf" into float  (ui_json/utils.py:268)*)
 (*   UuidTextAsId       str2uuid turns uuid-looking text into UUID -> promoted (utils.py:411)   *)
-(*   NoneMemberAsText   a None `optional` member (templates.py:449 drillhole_group_data) is     *)
-(*                      written as "" which ui_validation refuses on read  (input_file.py:485)  *)
+(*   NoneMemberAsText   a None `optional` member (templates.py:445 drillhole_group_data) is     *)
+(*                      written as "" which ui_validation refuses on read  (input_file.py:490)  *)
 (*   IsValueFlipOnNone  update_ui_values sets isValue = True for a None value                   *)
-(*                      (input_file.py:269-274)                                                 *)
+(*                      (input_file.py:269-275)                                                 *)
 (*   FileFormRejectsWorkspace  validate=True: a file form whose text ends in .geoh5 becomes a   *)
 (*                      Workspace that the form's own type validation [str] refuses             *)
-(*                      (ui_json/utils.py:283 path2workspace + validation.py:155-158)           *)
+(*                      (ui_json/utils.py:282 path2workspace + validation.py:160-163)           *)
 (*   GroupPropagation   set_enabled on the groupOptional holder overwrites `enabled` of every   *)
-(*                      member of the group (ui_json/utils.py:177-186)                          *)
+(*                      member of the group (ui_json/utils.py:186-194)                          *)
 EXTENDS Naturals, Sequences, FiniteSets, TLC, TLCExt, Json
 
 CONSTANTS
@@ -73,7 +73,7 @@ HasC(v, c) == \E i \in DOMAIN v.e : v.e[i].c = c
 HasT(v, t) == \E i \in DOMAIN v.e : v.e[i] = t
 MinOf(s) == CHOOSE m \in s : \A y \in s : m <= y
 
-\* numify (input_file.py:490): mappers str2none, str2inf, str2uuid, path2workspace, element-wise
+\* numify (input_file.py:495): mappers str2none, str2inf, str2uuid, path2workspace, element-wise
 NumifyE(t) ==
     CASE t.c = "NoneText" -> T("None")
       [] t.c = "InfText"  -> T("PInf")
@@ -86,9 +86,9 @@ NumifyE(t) ==
       [] t.c = "StrNInf"  -> IF Dev("InfTextAsFloat") THEN T("NInf") ELSE t
       [] t.c = "StrUuid"  -> IF Dev("UuidTextAsId") THEN I("Id", "unk") ELSE t
       [] OTHER -> t
-\* promote (input_file.py:534-545 _uid_promotion, shared/utils.py:388-409 uuid2entity: unknown uid -> None)
+\* promote (input_file.py:536-545 _uid_promotion, shared/utils.py:388-409 uuid2entity: unknown uid -> None)
 PromoteE(t) == IF t.c = "Id" THEN (IF t.x = "unk" THEN T("None") ELSE I("Ent", t.x)) ELSE t
-\* demote (input_file.py:505): entity2uuid, as_str_if_uuid, workspace2path
+\* demote (input_file.py:507): entity2uuid, as_str_if_uuid, workspace2path
 DemoteE(t) ==
     CASE t.c \in {"Ent", "Id"} -> I("IdText", t.x)
       [] t.c = "Ws"    -> T("WsPath")
@@ -119,12 +119,12 @@ FormKinds == {"bool", "integer", "float", "string", "choice", "multichoice", "fi
 Base(kind, v) == [kind |-> kind, value |-> v, opt |-> "absent", en |-> "absent", isv |-> "absent",
                   prop |-> Absent, grp |-> "none", gopt |-> "absent", dep |-> 0, dept |-> "enabled",
                   parent |-> 0]
-\* kind specific members of the templates (templates.py:370-386 data_value_parameter)
+\* kind specific members of the templates (templates.py:394-408 data_value_parameter)
 Tmpl(kind, v) == IF kind = "datavalue" THEN [Base(kind, v) EXCEPT !.isv = "T", !.prop = NoneV]
                  ELSE Base(kind, v)
 \* optional state: "req" = template without `optional=`, "on"/"off" = optional_parameter(enabled/disabled)
-\* (templates.py:41-58); drillhole_group_data always has optional (None by default) and enabled
-\* (templates.py:441-456), range_label_template always has enabled (templates.py:489-505)
+\* (templates.py:43-60); drillhole_group_data always has optional (None by default) and enabled
+\* (templates.py:438-452), range_label_template always has enabled (templates.py:491-507)
 WithOpt(f, o) ==
     CASE o = "on"  -> [f EXCEPT !.opt = "T", !.en = "T"]
       [] o = "off" -> [f EXCEPT !.opt = "T", !.en = "F"]
@@ -226,24 +226,24 @@ StrictForm(f) == /\ PlainValue(f.kind, f.value)
 StrictFile(r) == \A k \in DOMAIN r : StrictForm(r[k])
 
 \* ------------------------------------------------------------------ flatten / requires_value / update_ui_values
-\* ui_json/utils.py:33-48 flatten + :191-207 truth (enabled defaults to True, isValue defaults to True)
+\* ui_json/utils.py:33-47 flatten + :207-225 truth (enabled defaults to True, isValue defaults to True)
 Flat(F, k) == LET f == F[k] IN
     IF f.kind = "plain" THEN f.value
     ELSE IF f.en = "F" THEN NoneV
     ELSE IF f.isv = "F" THEN f.prop ELSE f.value
 
-GroupOf(F, g) == {j \in DOMAIN F : F[j].kind # "plain" /\ F[j].grp # "none" /\ F[j].grp = g}   \* utils.py:51 collect
+GroupOf(F, g) == {j \in DOMAIN F : F[j].kind # "plain" /\ F[j].grp # "none" /\ F[j].grp = g}   \* utils.py:50 collect
 LeadersOf(F, g) == {j \in GroupOf(F, g) : F[j].gopt # "absent"}
 EnabledOr(f, dflt) == IF f.en = "absent" THEN dflt ELSE f.en = "T"
 Truthy(v) == ~(v = NoneV \/ v = S(T("False")) \/ v = Lst(<<>>))
-\* ui_json/utils.py:90-110 dependency_requires_value
+\* ui_json/utils.py:85-106 dependency_requires_value
 DepReq(F, k) ==
     LET f == F[k]
         d == F[f.dep]
         key == IF d.opt = "T" THEN EnabledOr(d, TRUE) ELSE Truthy(d.value)
         r0 == IF f.dept = "enabled" THEN key ELSE ~key
     IN IF f.opt # "absent" /\ r0 THEN f.en = "T" ELSE r0
-\* ui_json/utils.py:113-160 group_requires_value / requires_value
+\* ui_json/utils.py:109-158 group_requires_value / requires_value
 Requires(F, k) ==
     LET f == F[k]
         own == IF f.dep # 0 THEN DepReq(F, k) ELSE IF f.opt # "absent" THEN EnabledOr(f, TRUE) ELSE TRUE
@@ -254,7 +254,7 @@ Requires(F, k) ==
        ELSE IF f.grp # "none" THEN (IF greq THEN own ELSE FALSE)
        ELSE own
 
-\* ui_json/utils.py:163-188 set_enabled(ui_json, parameter, value)
+\* ui_json/utils.py:174-204 set_enabled(ui_json, parameter, value)
 SetEnabled(F, k, b) ==
     LET f == F[k]
         G == IF f.opt = "T" THEN [F EXCEPT ![k].en = b] ELSE F
@@ -265,7 +265,7 @@ SetEnabled(F, k, b) ==
 
 \* PropertyGroup is not an Entity (groups/property_group.py:33)
 IsEntOrId(v) == ~v.l /\ (v.e[1].c = "Id" \/ (v.e[1].c = "Ent" /\ v.e[1].x # "pg"))
-\* input_file.py:256-282 update_ui_values, one (key, value) pair
+\* input_file.py:249-284 update_ui_values, one (key, value) pair
 UpdOne(F, k, v, upd) ==
     LET f == F[k] IN
     IF f.kind = "plain" THEN [F EXCEPT ![k].value = v]
@@ -300,13 +300,13 @@ FormCause(f) == IF f.grp # "none" THEN "group-enabled-propagation"
 
 \* ------------------------------------------------------------------ InputFile(ui_json=R, validate=val).data
 LoadResult(R, val, W) ==
-    LET memberBad == \E k \in DOMAIN R : R[k].opt = "Text"     \* ui_validation before numify (input_file.py:484-488)
+    LET memberBad == \E k \in DOMAIN R : R[k].opt = "Text"     \* ui_validation before numify (input_file.py:488-492)
         F0 == [k \in DOMAIN R |-> NumifyForm(R[k])]
         D0 == [k \in DOMAIN R |-> Flat(F0, k)]
         badId == {k \in DOMAIN R : HasT(D0[k], I("Id", "unk"))}   \* association_validator in _uid_promotion
         D1 == [k \in DOMAIN R |-> MapV(PromoteE, D0[k])]
         badNone == {k \in DOMAIN R : D1[k] = NoneV /\ Requires(F0, k)}   \* OptionalValidator
-        \* a file form has the fixed validation types [str] (validation.py:155-158)
+        \* a file form has the fixed validation types [str] (validation.py:160-163)
         badType == {k \in DOMAIN R : /\ R[k].kind = "file" /\ ~D1[k].l
                                      /\ D1[k].e[1].c \notin {"None", "Str", "Str2", "EmptyStr", "StrInf", "StrNInf", "StrUuid", "StrG5", "IdText", "WsPath"}
                                      /\ (D1[k].e[1].c \in {"Ws", "WsNew"} => Dev("FileFormRejectsWorkspace"))}
@@ -374,7 +374,7 @@ Load ==
             /\ last' = [NoLast EXCEPT !.act = "Load", !.out = "refused"]
     /\ UNCHANGED <<raw, validate, disk, wdata, wen, fresh, rfail, nset, nwrite>>
 
-\* set_data_value validates first (input_file.py:434-446) then data[key] = value, update_ui_values({key: value})
+\* set_data_value validates first (input_file.py:433-446) then data[key] = value, update_ui_values({key: value})
 SetValue(k, v) ==
     /\ loaded /\ nset < MaxSet
     /\ validate => (nwrite = 0 /\ forms[k].kind # "plain")   \* validations inferred after a re-read / from a plain entry's own type are C15's subject
